@@ -36,6 +36,13 @@ pub enum KeyAlt {
   /// first byte of the parse-side public key replaced by this value (P-384: every SEC1 tag - compact 05, hybrid 06/07,
   /// uncompressed 04, infinity 00 ...; Ed25519: the low byte of y)
   FirstByte(u8),
+  /// v2/v4.public: the token is SIGNED with 64 secret-key bytes whose halves do not belong together (seed of another
+  /// pair, public half of this one). Refusing to sign is fine; a token that comes out belongs to the public key the secret
+  /// key carries - it must not verify under the other pair's public key.
+  SecretHalvesMismatch,
+  /// v3.public: K' is a public key RECOVERED from the token's own ECDSA signature (every recovery id) for the byte
+  /// string the specification signs and for the one an implementation that leaves the public key out of it would sign
+  Recovered(u8),
 }
 
 #[derive(Clone, Debug, Serialize, Deserialize)]
@@ -163,6 +170,8 @@ fn alt_public(p: Proto, seed: &[u8; 32], alt: &KeyAlt) -> Option<Vec<u8>> {
     }
     KeyAlt::HexSpelling(..) => return None, // handled by `hex_spelling`
     KeyAlt::WrongLength(..) => return None, // handled by `wrong_length`
+    KeyAlt::SecretHalvesMismatch => return None, // handled by `secret_halves_mismatch`
+    KeyAlt::Recovered(_) => return None,           // handled by `recovered_keys`
     KeyAlt::FirstByte(b) => {
       if p.is_local() || p == Proto::V1P || pk[0] == *b {
         return None;
@@ -207,6 +216,12 @@ impl Sub for KeyBinding {
     if let KeyAlt::WrongLength(kind, n) = &c.alt {
       return wrong_length(s, &t, *kind, *n, cl);
     }
+    if let KeyAlt::SecretHalvesMismatch = &c.alt {
+      return secret_halves_mismatch(s, cl);
+    }
+    if let KeyAlt::Recovered(_) = &c.alt {
+      return recovered_keys(s, &t, cl);
+    }
     let seed = s.seed();
     let alt = match alt_public(p, &seed, &c.alt) {
       Some(a) => a,
@@ -226,6 +241,8 @@ impl Sub for KeyBinding {
       KeyAlt::HexSpelling(..) => "hex-spelled-keys",
       KeyAlt::WrongLength(..) => "material-of-another-length",
       KeyAlt::FirstByte(_) => "first-byte-replaced",
+      KeyAlt::SecretHalvesMismatch => "secret-key-halves-mismatch",
+      KeyAlt::Recovered(_) => "recovered-from-the-signature",
     }));
     let (f, a) = (s.footer.as_deref(), s.assertion());
     let describe = |o: &crate::rt::LayerOut| o.message();
@@ -281,6 +298,103 @@ impl Sub for KeyBinding {
     }
     Verdict::Pass
   }
+}
+
+/// ECDSA lets anyone compute, from a signature and a message, the public keys under which that signature is valid for
+/// that message. v3.public signs the public key along with the message precisely so that such a key is of no use.
+fn recovered_keys(s: &TokSpec, t: &str, cl: &mut Classes) -> Verdict {
+  use ecdsa::RecoveryId;
+  use p384::ecdsa::{Signature, VerifyingKey};
+  let p = s.proto;
+  if p != Proto::V3P {
+    return Verdict::Discard;
+  }
+  let seed = s.seed();
+  let pk = keys::key_bytes(p, &seed).1;
+  let km = keys::material(p, &seed);
+  let lk = km.lib().expect("valid key");
+  let (f, a) = (s.footer.as_deref(), s.assertion());
+  match layer_parse(p, s.layer, &lk, t, f, a) {
+    Ok(o) if o.message().as_deref() == Some(s.msg.as_str()) => {}
+    _ => return Verdict::Discard,
+  }
+  let (h, ps, _) = match split_token(t) {
+    Some(x) => x,
+    None => return Verdict::Discard,
+  };
+  let payload = match unb64(&ps) {
+    Some(b) if b.len() >= 96 => b,
+    _ => return Verdict::Discard,
+  };
+  let (m, sig) = payload.split_at(payload.len() - 96);
+  let sig = match Signature::from_slice(sig) {
+    Ok(s) => s,
+    Err(_) => return Verdict::Discard,
+  };
+  let (fb, ab) = (f.unwrap_or("").as_bytes(), a.unwrap_or("").as_bytes());
+  let signed: [Vec<u8>; 2] = [crate::specref::pae(&[&pk, h.as_bytes(), m, fb, ab]), crate::specref::pae(&[h.as_bytes(), m, fb, ab])];
+  cl.tag(format!("{}:{}", p.label(), s.layer.label()));
+  cl.tag("alt:recovered-from-the-signature");
+  let mut tried = 0;
+  for msg in &signed {
+    for id in 0..4u8 {
+      let q = match RecoveryId::from_byte(id).and_then(|r| VerifyingKey::recover_from_msg(msg, &sig, r).ok()) {
+        Some(q) => q,
+        None => continue,
+      };
+      let q_bytes = q.to_encoded_point(true).as_bytes().to_vec();
+      if q_bytes == pk {
+        continue;
+      }
+      tried += 1;
+      let km2 = match KeyMaterial::new(p, None, &q_bytes) {
+        Ok(k) => k,
+        Err(_) => continue,
+      };
+      if let Ok(lk2) = km2.lib() {
+        if let Ok(o) = layer_parse(p, s.layer, &lk2, t, f, a) {
+          vio!("C04:accepted-under-other-key:{}:{}:recovered", p.label(), s.layer.label();
+            "token produced under key {} was accepted under {} - a public key computed from the token's own signature; returned {:?}", hex::encode(&pk), hex::encode(&q_bytes), o.message());
+        }
+      }
+    }
+  }
+  cl.nontrivial(tried > 0);
+  Verdict::Pass
+}
+
+fn secret_halves_mismatch(s: &TokSpec, cl: &mut Classes) -> Verdict {
+  let p = s.proto;
+  if !matches!(p, Proto::V2P | Proto::V4P) {
+    return Verdict::Discard;
+  }
+  let seed = s.seed();
+  let mut other = seed;
+  other[0] ^= 0xff; // the pair whose seed `unusable_signing_material` puts into the first half
+  let bad = match keys::unusable_signing_material(p, &seed) {
+    Some(k) => k,
+    None => return Verdict::Discard,
+  };
+  cl.tag(format!("{}:{}", p.label(), s.layer.label()));
+  cl.tag("alt:secret-key-halves-mismatch");
+  cl.nontrivial(true);
+  let (f, a) = (s.footer.as_deref(), s.assertion());
+  let token = match bad.lib().and_then(|lk| crate::rt::layer_build(p, s.layer, &lk, &s.nonce, &s.msg, f, a)) {
+    Ok(t) => t,
+    Err(_) => {
+      cl.tag("rejected:signing-refused");
+      return Verdict::Pass;
+    }
+  };
+  // a token came out: the key that "produced" it is the one whose public half the secret key carries
+  let km_other = keys::material(p, &other);
+  if let Ok(lk_other) = km_other.lib() {
+    if let Ok(o) = layer_parse(p, s.layer, &lk_other, &token, f, a) {
+      vio!("C04:accepted-under-other-key:{}:{}:secret-halves", p.label(), s.layer.label();
+        "a token signed with secret-key bytes (seed of pair A, public half of pair B) verifies under A's public key {} although the secret key names B ({}); returned {:?}", hex::encode(keys::key_bytes(p, &other).1), hex::encode(keys::key_bytes(p, &seed).1), o.message());
+    }
+  }
+  Verdict::Pass
 }
 
 /// Key material that differs from K in length (a longer secret that starts or ends with K, K cut short) handed to
@@ -398,6 +512,8 @@ fn alt_strategy(p: Proto) -> BoxedStrategy<KeyAlt> {
     (3, (any::<u16>(), 0u8..5).prop_map(|(b, d)| KeyAlt::FlipTwo(b, d)).boxed()),
     (if p.is_local() || ed { 2 } else { 0 }, (0u8..3, any::<u8>()).prop_map(|(k, n)| KeyAlt::WrongLength(k, n)).boxed()),
     (if p == Proto::V3P { 3 } else if ed { 1 } else { 0 }, prop_oneof![3 => 0u8..8, 1 => any::<u8>()].prop_map(KeyAlt::FirstByte).boxed()),
+    (if ed { 1 } else { 0 }, Just(KeyAlt::SecretHalvesMismatch).boxed()),
+    (if p == Proto::V3P { 3 } else { 0 }, any::<u8>().prop_map(KeyAlt::Recovered).boxed()),
     (if p.is_local() { 3 } else { 0 }, (prop_oneof![any::<u64>(), Just(u64::MAX), (0u32..64).prop_map(|i| 1u64 << i)], any::<bool>()).prop_map(|(m, u)| KeyAlt::HexSpelling(m, u)).boxed()),
   ];
   proptest::strategy::Union::new_weighted(options.into_iter().filter(|(w, _)| *w > 0).collect()).boxed()
@@ -452,6 +568,7 @@ pub fn run(ctx: &Ctx) -> EvidenceMeta {
             for b in 0..=255u8 {
               cases.push(KeyCase { tok: spec.clone(), alt: KeyAlt::FirstByte(b) });
             }
+            cases.push(KeyCase { tok: spec.clone(), alt: KeyAlt::Recovered(0) });
             // the SEC1 tags again under other key pairs (either parity of y)
             if spec.proto == Proto::V3P {
               for k in 0..6u8 {
